@@ -94,6 +94,58 @@ def features(b):
     return req, quant, nonlinear, non_dl
 
 
+SETTER_CALLS = [('set_difference_logic', True), ('set_lira', True),
+                ('set_linear', False), ('set_strings', True),
+                ('set_arrays', True), ('set_arrays_const', True),
+                ('set_difference_logic', False), ('set_lira', False),
+                ('set_linear', True), ('set_strings', False),
+                ('set_arrays_const', False)] * 2
+NAMED_THEORIES = {}
+
+
+def snapshot_named_theories():
+    import pysmt.logics as L
+    for lg in L.LOGICS:
+        NAMED_THEORIES[lg.name] = dict(vars(lg.theory))
+
+
+def check_theory_setters(rep):
+    """set_* on the theory of every named logic returns a new object, leaves
+    the receiver alone and changes only the fields it is named for."""
+    import pysmt.logics as L
+    allowed = {'set_difference_logic': {'integer_difference',
+                                        'real_difference'},
+               'set_lira': {'integer_arithmetic', 'real_arithmetic'},
+               'set_linear': {'linear'}, 'set_strings': {'strings'},
+               'set_arrays': {'arrays'},
+               'set_arrays_const': {'arrays', 'arrays_const'}}
+    for lg in sorted(set(L.LOGICS) | set(L.PYSMT_LOGICS),
+                     key=lambda x: x.name):
+        t = lg.theory
+        snap = dict(vars(t))
+        for setter, val in SETTER_CALLS[:11]:
+            try:
+                r = getattr(t, setter)(val)
+            except AssertionError:
+                continue
+            rep.count('setter_calls_checked')
+            rep.case(key=('setter', lg.name, setter, val))
+            changed = set(k for k in snap if vars(r).get(k) != snap[k])
+            if r is t or dict(vars(t)) != snap:
+                rep.violation('C13/setter-mutates/%s' % setter,
+                              '%s.theory.%s(%r) changed the theory of the '
+                              'named logic: %s' % (lg.name, setter, val, t),
+                              {'logic': lg.name, 'setter': setter})
+                for k, v in snap.items():
+                    setattr(t, k, v)
+            elif not changed <= allowed[setter]:
+                rep.violation('C13/setter-result/%s' % setter,
+                              '%s.theory.%s(%r) also changes %s' % (
+                                  lg.name, setter, val,
+                                  sorted(changed - allowed[setter])),
+                              {'logic': lg.name, 'setter': setter})
+
+
 def check_detection(rep, b, j):
     from pysmt.environment import get_env
     from pysmt.oracles import get_logic
@@ -132,6 +184,35 @@ def check_detection(rep, b, j):
             B.show(fb, 150), e))
         return
     rep.count('detections_compared')
+    # a caller derives variants of the theory it was handed (the set_*
+    # methods are documented to return copies): detection is asked again
+    before = (dict(vars(th)), lg,
+              dict(vars(lg.theory)) if lg is not None else None)
+    for setter, val in SETTER_CALLS[j % len(SETTER_CALLS):][:3]:
+        try:
+            getattr(th, setter)(val)
+            if lg is not None:
+                getattr(lg.theory, setter)(val)
+        except AssertionError:
+            pass
+    try:
+        th2 = env.theoryo.get_theory(f)
+        try:
+            lg2 = get_logic(f, env)
+        except NoLogicAvailableError:
+            lg2 = None
+    except Exception as e:
+        bad('detect-raises', common.exc_name(e), 'second get_logic(%s) '
+            'raised %r' % (B.show(fb, 150), e))
+        return
+    rep.count('detections_repeated_after_setters')
+    if dict(vars(th2)) != before[0] or lg2 is not before[1] or \
+            (lg is not None and dict(vars(lg.theory)) != before[2]):
+        bad('setter-mutates', 'theory',
+            'after calling set_* methods on the theory / logic returned for '
+            '%s, detection answers %s / %s (before: %s / %s)' % (
+                B.show(fb, 150), th2, lg2, before[0], before[1]))
+        return
     targets = [('theory', th, None)]
     if lg is not None:
         rep.count('logics_compared')
@@ -534,7 +615,9 @@ def run(rep):
     if (not only or only == 'entry') and rep.shard == 1 % rep.nshards:
         check_entry_points(rep)
     rng = random.Random(rep.seed * 4241 + rep.shard)
+    snapshot_named_theories()
     if (not only or only == 'order') and rep.shard == 0:
+        check_theory_setters(rep)
         check_order(rep)
     if not only or only == 'closer':
         check_closer(rep)
@@ -564,6 +647,7 @@ def run(rep):
 
 def replay(case, rep):
     common.fresh_env()
+    snapshot_named_theories()
     c = case.get('case') or {}
     if c.get('bp'):
         check_detection(rep, B.from_json(c['bp']), 0)
